@@ -90,14 +90,13 @@ where
     where
         RequestOcts: AsRef<[u8]> + Octets,
     {
-        let question = request
-            .message()
-            .question()
-            .into_iter()
-            .next()
-            .expect("the caller need to make sure that there is question")
-            .expect("the caller need to make sure that the question can be parsed")
-            ;
+        // A request without a question, or with one that cannot be parsed,
+        // cannot be routed.
+        let Some(Ok(question)) =
+            request.message().question().into_iter().next()
+        else {
+            return Box::pin(ready(Err(ServiceError::FormatError)));
+        };
         let name = question.qname();
         let el = match self
             .list
